@@ -270,7 +270,8 @@ fn probe_links(p: &mut Probe) {
 // ---------------------------------------------------------------- session
 
 pub enum Sqe {
-    Rusl(IoUringSubmissionQueueEntry),
+    /// an entry built by a constructor under test, and the user_data it was asked to carry
+    Rusl(IoUringSubmissionQueueEntry, u64),
     Raw(RawSqe),
 }
 
@@ -328,8 +329,8 @@ impl Session {
             };
             unsafe {
                 match s {
-                    Sqe::Rusl(e) => {
-                        expected.push(e.0.user_data);
+                    Sqe::Rusl(e, ud) => {
+                        expected.push(ud);
                         slot.write(e);
                     }
                     Sqe::Raw(r) => {
@@ -351,6 +352,9 @@ impl Session {
                 if remaining == 0 {
                     break;
                 }
+                if sys::guard_fired() {
+                    return Err(Failure::new("ring|missing-cqe|hang guard", format!("{} of {} completions after 30 s (expected user_data {:x?}, got {:x?})", got.len(), n, expected, got)));
+                }
                 let mut flags = IoUringEnterFlags::IORING_ENTER_GETEVENTS;
                 if sqpoll {
                     // store(tail) ; full barrier ; load(flags) — the barrier is the caller's job
@@ -371,9 +375,7 @@ impl Session {
                     Err(e) => {
                         let code = e.code.map(|c| c.raw()).unwrap_or(0);
                         if code == libc::EINTR {
-                            if sys::guard_fired() {
-                                return Err(Failure::new("ring|missing-cqe|hang guard", format!("{} of {} completions after 30 s without progress (expected user_data {:x?}, got {:x?})", got.len(), n, expected, got)));
-                            }
+                            // the guard is looked at on the next round
                         } else if code == libc::EAGAIN || code == libc::EBUSY {
                             spins += 1;
                             if spins > 10_000 {
